@@ -15,13 +15,25 @@ Spec == Init /\ [][Next]_txt
 \* '1' '2' '5' '6' '.' 'x'   and   '2' '.' 'x'
 Bytes6 == {49, 50, 53, 54, DOT, 120}
 Bytes3 == {50, DOT, 120}
-\* '0' '2' '9' '.'  (leading zeros, 4-digit groups) -- extra
-Bytes4 == {48, 50, 57, DOT}
+\* '2' '5' '6' '.': the value limit 255 / 256 in complete addresses (shortest: "255.2.2.2", 9 bytes)
+Bytes4 == {50, 53, 54, DOT}
+\* '0' '2' '.': leading zeros and 4-digit groups ("0002.2.2.2", 10 bytes)
+BytesZ == {48, 50, DOT}
 
 EmitIP4Prefix   == PrintT(ToJson([fn |-> "IP4Prefix", args |-> [s |-> txt, dst |-> DstLen],
                                   res |-> IP4Prefix_Res(txt)]))
 EmitContainsIP4 == PrintT(ToJson([fn |-> "ContainsIP4", args |-> [s |-> txt, dst |-> DstLen],
                                   res |-> ContainsIP4_Res(txt)]))
+
+\* ---- IPv6 (growth): drift only
+\* '1' 'f' ':' '[' ']' 'x'   and   '1' ':'  (reaches complete 8 group addresses at 15 bytes)
+Bytes6v6 == {49, 102, COLON, LBRACK, RBRACK, 120}
+Bytes2v6 == {49, COLON}
+Bytes4v6 == {49, COLON, LBRACK, RBRACK}
+EmitIP6Prefix   == PrintT(ToJson([fn |-> "IP6Prefix", args |-> [s |-> txt, dst |-> Dst6Len],
+                                  res |-> IP6Prefix_Res(txt)]))
+EmitContainsIP6 == PrintT(ToJson([fn |-> "ContainsIP6", args |-> [s |-> txt, dst |-> Dst6Len],
+                                  res |-> ContainsIP6_Res(txt)]))
 
 ContainsDeclInv == ContainsDecl(txt, IP4_Contains(txt))
 PrefixDeclInv   == PrefixDecl(txt, IP4_Prefix(txt))
